@@ -247,14 +247,16 @@ class Case:
                      ("digestMismatch", "both", "badmd5"), ("failedNoCheck", "bbcp-only", "garbled"),
                      ("failedCheckSrc", "rsync-only", "fail-src"), ("failedCheckSrc", "rsync-only", "partial"),
                      ("failedNoCheck", "rsync-only", "fail-mkstemp"), ("failedNoCheck", "rsync-only", "fail-write"),
-                     ("failedNoCheck", "none", "ok"), ("failedCheckSrc", "bbcp-only", "fail-src")]
+                     ("failedNoCheck", "none", "ok"), ("failedCheckSrc", "bbcp-only", "fail-src"),
+                     ("failedCheckSrc", "rsync-only", "hang")]
         else:
             if same_arch:
                 opts += [("ok", "both", "ok"), ("ok", "none", "ok")]            # hard link
             else:
                 opts += [("ok", "rsync-only", "ok"), ("ok", "none", "ok"),      # rsync / internal copy
                          ("failedCheckSrc", "rsync-only", "fail-src"), ("failedCheckSrc", "rsync-only", "partial"),
-                         ("failedNoCheck", "rsync-only", "fail-mkstemp"), ("failedNoCheck", "rsync-only", "fail-write")]
+                         ("failedNoCheck", "rsync-only", "fail-mkstemp"), ("failedNoCheck", "rsync-only", "fail-write"),
+                         ("failedCheckSrc", "rsync-only", "hang")]
         return opts
 
     def step_pull(self, req_row, dest, want=None):
@@ -293,6 +295,7 @@ class Case:
         old_path = os.environ.get("PATH", "")
         os.environ["PATH"] = os.path.join(FAKE, pathdir)
         os.environ["VERIF_TOOL_CTL"] = ctl
+        self.env.config.config["daemon"]["pull_timeout_base"] = 0.25 if mode == "hang" else 300
         self.env.set_host("h1")
         io = self.node_io(dest)
         q = FairMultiFIFOQueue()
@@ -303,7 +306,15 @@ class Case:
                 io.reserve_bytes(f.size_b)
             task = tmod.Task(func=pull_async, queue=q, key="k", args=(io, io.tree_lock, req_row), name="pull")
             item = q.get(timeout=0.001)
-            item[0]()
+            raised = None
+            try:
+                item[0]()
+            except Exception as ex:  # noqa  -- an uncaught exception in a task aborts the daemon
+                raised = f"{type(ex).__name__}: {ex}"
+                try:
+                    item[0].do_cleanup()
+                except Exception:
+                    pass
             q.task_done(item[1])
         finally:
             os.environ["PATH"] = old_path
@@ -314,7 +325,7 @@ class Case:
             dmod._reserved_bytes[dest.name] = 0
         return line, dict(kind="pull", transfer=transfer, route=pathdir, mode=mode, completed=bool(row.completed),
                           cancelled=bool(row.cancelled), src=src_bytes, dst_before=dst_before, dst_after=dst_after,
-                          leftovers=self.leftovers(dest), reserved_after=reserved, dest=dest.id, file=f.id, src_node=src.id)
+                          leftovers=self.leftovers(dest), reserved_after=reserved, dest=dest.id, file=f.id, src_node=src.id, raised=raised)
 
 
 # ------------------------------------------------------------------------------------------------ histories
